@@ -234,7 +234,7 @@ func (e *Engine) jump(st *State, th *Thread, to *ssa.BasicBlock) {
 // exec executes one instruction of the top frame.
 func (e *Engine) exec(st *State, th *Thread, fr *Frame, instr ssa.Instruction) {
 	tb := e.tb
-	e.Funcs[fr.Fn.String()]++
+	e.fnCount[fr.Fn]++
 	switch in := instr.(type) {
 	case *ssa.DebugRef:
 		e.advance(st, th)
